@@ -3,6 +3,7 @@
 #  1. every claimed obligation with all three solvers (agreement required) and three times the time limit;
 #  2. the property's must-fail / must-pass self-test edits, applied to a scratch copy of /repo's CURRENT
 #     working tree outside /repo and /verif (removed afterwards); the result is added to the evidence file.
+#     Edits are started for at most SELFTEST_BUDGET_S seconds (default 1500); the ones not run are listed.
 # The exit status is that of step 1: a surviving self-test mutant is a hole in the check, not a violation of
 # the property on this tree; it is printed as SELFTEST-SURVIVOR and recorded in the evidence.
 ID="$1"
@@ -16,7 +17,7 @@ if [ -d "$T/repo/.git" ]; then
   # commit the copied working tree in the scratch copy so that each edit can be undone with git checkout
   (cd "$T/repo" && git add -A >/dev/null 2>&1 && git -c user.name=selftest -c user.email=selftest@localhost commit -qm "scratch: working tree under test" >/dev/null 2>&1)
   mkdir -p /verif/work
-  VERIF_REPO="$T/repo" SELFTEST_LENIENT=1 python3 tools_selftest.py "$ID" --json "/verif/work/selftest_$ID.json" > "/verif/work/selftest_$ID.log" 2>&1
+  VERIF_REPO="$T/repo" SELFTEST_LENIENT=1 SELFTEST_BUDGET_S="${SELFTEST_BUDGET_S:-1500}" python3 tools_selftest.py "$ID" --json "/verif/work/selftest_$ID.json" > "/verif/work/selftest_$ID.log" 2>&1
   grep -E "SURVIVED|ALARM" "/verif/work/selftest_$ID.log" | sed 's/^/SELFTEST-SURVIVOR /'
   tail -1 "/verif/work/selftest_$ID.log" | sed 's/^/selftest: /'
   if [ -f "/verif/work/selftest_$ID.json" ] && [ -f "/verif/evidence/$ID.json" ]; then
